@@ -1264,7 +1264,10 @@ func checkProperty(id, tier string) int {
 		var cmu sync.Mutex
 		for i, name := range order {
 			r := results[i]
-			if r == nil || r.Result != "discharged" || !coverKinds[r.Kind] || os.Getenv("GOVC_NO_COVER") != "" {
+			if r == nil || r.Result != "discharged" || os.Getenv("GOVC_NO_COVER") != "" {
+				continue
+			}
+			if !coverKinds[r.Kind] && !(os.Getenv("GOVC_COVER_ALL") != "" && (r.Kind == "pre" || r.Kind == "chaninv" || r.Kind == "type-invariant" || r.Kind == "typestate")) {
 				continue
 			}
 			cwg.Add(1)
